@@ -330,7 +330,8 @@ func (w *World) goBaseType(s *Spec) (typ string, nillable bool) {
 			return "[]interface{}", true
 		}
 		et, _ := w.goBaseType(s.Items)
-		if s.Items.Null != "" && et != "interface{}" && !strings.HasPrefix(et, "[]") && !strings.HasPrefix(et, "map[") {
+		// (an enum that lists null holds it in its own wrapper: no pointer is needed to represent it)
+		if s.Items.Null != "" && s.Items.Enum != "strings+null" && et != "interface{}" && !strings.HasPrefix(et, "[]") && !strings.HasPrefix(et, "map[") {
 			et = "*" + et
 		}
 		return "[]" + et, true
